@@ -165,7 +165,7 @@ def validate(ctx: Ctx, traces: list[dict], name: str) -> None:
 
 
 # ---- random larger DAGs ----------------------------------------------------------------------------
-def random_desc(rng: random.Random, nf: int, picker: bool = False) -> dict:
+def random_desc(rng: random.Random, nf: int, picker: bool = False, hook: bool = False) -> dict:
     roots = ["x", "y", "z", "w"]
     funcs = []
     avail = list(roots)
@@ -196,6 +196,7 @@ def random_desc(rng: random.Random, nf: int, picker: bool = False) -> dict:
                       # custom output_picker (the function returns a mapping keyed by its output names): only where the
                       # caller never renames outputs afterwards (a user's picker cannot follow a rename either)
                       "picker": picker and len(outs) > 1 and rng.random() < 0.35,
+                      "hook": hook and rng.random() < 0.3,     # post_execution_hook: an event of its own after the call
                       "renamed": [p for p in params if rng.random() < 0.3]})   # underlying argument named differently
         avail += outs
     # consistent defaults: one default value per name (already by construction)
@@ -289,7 +290,10 @@ def run(ctx: Ctx) -> None:
     rtraces = []
     for _ in range(150 if quick else 2500):
         build.LOG.clear()
-        td = random_desc(rng, rng.randint(3, 6), picker=True)
+        td = random_desc(rng, rng.randint(3, 6), picker=True, hook=True)
+        for f in td["funcs"]:
+            if f["picker"]:
+                f["hook"] = False          # (the hook's result would be the raw mapping)
         rtraces.append(random_history(rng, td))
     for t in rtraces:
         ctx.case({"d": t["desc"], "n": len(t["ev"])})
